@@ -180,7 +180,7 @@ fn run_case(c: &Case) -> Result<Outcome, Failure> {
 			// the decoders keep ahead: both rings are full (or the streams have been decoded to
 			// their end) before the sounds are asked for audio, and do not move during the call
 			let streams = [(a.id, a.log.clone()), (b.id, b.log.clone())];
-			if !streamctl::wait_quiescent(&streams, Duration::from_secs(10)) {
+			if !streamctl::wait_quiescent_or_flag(&streams, Duration::from_secs(20)) {
 				timeouts += 1;
 			}
 			streamctl::set_callback_active(true);
